@@ -351,15 +351,17 @@ fn decide(s: &mut Solvers, conds: &[(Cond, bool)], flipped: Cond, base: &[Fr], r
     let qn = ARENA.with(|a| emit_query_norm(&a.borrow(), conds));
     let mut n_live = false;
     if let Some(qn) = &qn {
-        if qn.oracle_only {
-            return Dec::Negligible;
-        }
         n_live = s.cvc5_n.send(&qn.text, &qn.vars);
-        match s.cvc5_n.poll(std::time::Duration::from_millis(120)) {
+        match s.cvc5_n.poll(std::time::Duration::from_millis(150)) {
             Some(Ans::Unsat) => return Dec::Unsat("N-cvc5"),
             Some(Ans::Sat(vals)) => return Dec::Sat(model_to_input(qn, &vals, base), "N-cvc5"),
             Some(Ans::Unknown(_)) => n_live = false,
             None => {}
+        }
+        if qn.oracle_only {
+            // the solver did not settle it at once: the alternative needs a relation among oracle outputs only
+            s.cvc5_n.abort();
+            return Dec::Negligible;
         }
     }
     // quick attempt on the DAG encoding
